@@ -71,14 +71,23 @@ def ref_op(op, game, P, Q):
 
 
 def _reown(aut, op):
-    """History for the `@reowned` variants: run the operator once, re-assign every variable to the component in place,
-    refresh the primed lists the documented way, and only then run the operator that is checked."""
+    """History for the `@reowned` / `@grown` variants: run the operator once on the Automaton as built, then change the
+    Automaton in place, refresh the primed lists the documented way, and only then run the operator that is checked.
+    `@reowned`: every variable is re-assigned to the component. `@grown`: a further Boolean variable `zz` is declared,
+    given to the component, and conjoined to the target (so the target mentions a variable that did not exist when
+    the operator first ran)."""
     base, _, tag = op.partition('@')
     if tag:
         real_op(base, aut, aut.win['[]<>'][0], aut.win['<>[]'][0])
+    if tag == 'reowned':
         aut.varlist['sys'] = list(aut.varlist['env']) + list(aut.varlist['sys'])
         aut.varlist['env'] = []
         aut.prime_varlists()
+    elif tag == 'grown':
+        aut.declare_variables(zz='bool')
+        aut.varlist['sys'] = list(aut.varlist['sys']) + ['zz']
+        aut.prime_varlists()
+        aut.win['[]<>'] = [aut.win['[]<>'][0] & aut.add_expr('zz')] + list(aut.win['[]<>'][1:])
     return base
 
 
@@ -173,10 +182,10 @@ def family_op(shape, moore, plus_one, ops):
     for op in ops:
         t0 = time.time()
         aut, params = family.build(shape, moore, plus_one)
-        P = aut.win['[]<>'][0]
-        Q = aut.win['<>[]'][0]
         full_op = op
         op = _reown(aut, full_op)
+        P = aut.win['[]<>'][0]
+        Q = aut.win['<>[]'][0]
         r = real_op(op, aut, P, Q)
         t_real = time.time() - t0
         exp = bdd2smt.Exporter(aut.bdd)
@@ -289,7 +298,7 @@ def run(tier, seed, t0, only=None):
     # history: the same Automaton after every variable was re-assigned to the component in place
     for shape, be in (('S11', 'cudd'), ('B11b', 'cudd')):
         for moore, plus_one in MODES:
-            for op in ('step@reowned', 'attractor@reowned', 'trap@reowned'):
+            for op in ('step@reowned', 'attractor@reowned', 'trap@reowned') + (('step@grown',) if shape == 'S11' else ()):
                 tasks.append(dict(mod='vlib.props.c11', fn='family_op',
                                   kw=dict(shape=shape, moore=moore, plus_one=plus_one, ops=[op]),
                                   backend=be, timeout=300 if tier == 'quick' else 3000,
